@@ -54,6 +54,31 @@ def _truth_tests(f):
     return out
 
 
+# ARGPOS.named-call: a plain variable that is named like a parameter of the (resolved) callee is passed in
+# that parameter's slot.  4446 resolved call sites in the package obey this; the sites below are the
+# reviewed exceptions (deliberate reversal, unbound-method calls that pass the receiver first, a local that
+# merely shares a name).
+ARGPOS_OK = {
+    ("dask/array/_array_expr/_rechunk.py", "_compute_rechunk", "name"): "the local `name` is the output name; the callee's `name` parameter is the input's name (passed last)",
+    ("dask/array/core.py", "from_collections", "layer"): "local `layer` is the layer NAME, passed as `name`",
+    ("dask/bag/core.py", "from_collections", "layer"): "local `layer` is the layer NAME, passed as `name`",
+    ("dask/dataframe/dask_expr/_collection.py", "from_collections", "layer"): "local `layer` is the layer NAME, passed as `name`",
+    ("dask/bag/core.py", "digit", "k"): "digit(i, j, k): caller's loop variables, unrelated to digit's parameter names",
+    ("dask/dataframe/dask_expr/_accessor.py", "_bind_method", "pd_cls"): "classmethod object called with cls explicitly",
+    ("dask/dataframe/dask_expr/_accessor.py", "_bind_method", "attr"): "classmethod object called with cls explicitly",
+    ("dask/dataframe/dask_expr/_accessor.py", "_bind_property", "pd_cls"): "classmethod object called with cls explicitly",
+    ("dask/dataframe/dask_expr/_accessor.py", "_bind_property", "attr"): "classmethod object called with cls explicitly",
+    ("dask/dataframe/dask_expr/_expr.py", "_simplify_up", "parent"): "unbound method call Filter._simplify_up(self, parent, dependents)",
+    ("dask/dataframe/groupby.py", "_adjust_for_arrow_na", "result"): "caller's `result` is the callee's second argument `other`; the callee's first parameter happens to be called result",
+    ("dask/dataframe/io/hdf.py", "compute_as_if_collection", "keys"): "first argument is the collection class",
+    ("dask/dataframe/utils.py", "make_meta", "index"): "make_meta(x, index=None): the local named index IS the object to make meta of",
+    ("dask/optimization.py", "subs", "val"): "subs(task, key, val): the caller's `val` is the task being rewritten",
+    ("dask/order.py", "_connecting_to_roots", "dependents"): "deliberate reversal: leaves are found by walking the reversed graph",
+    ("dask/order.py", "_connecting_to_roots", "dependencies"): "deliberate reversal: leaves are found by walking the reversed graph",
+    ("dask/utils.py", "_derived_from", "method"): "first argument is the class; keyword arguments follow",
+}
+
+
 def _side_tokens(node):
     import re
 
@@ -158,6 +183,45 @@ def check(ctx):
                         False,
                         f"`{minority[0]}` belongs to the other side, and the function contains the mirror image `{_mirror(fixed)[:70]}` of the corrected call: one input is processed with the other input's key/flag",
                     )
+    # ---------------- ARGPOS.named-call
+    n_calls = 0
+    for rel in anchor_files(ctx.prop):
+        if not model.exists(rel):
+            continue
+        mod = model.module(rel)
+        for node in ast.walk(mod.tree):
+            if not isinstance(node, ast.Call) or not isinstance(node.func, (ast.Name, ast.Attribute)):
+                continue
+            if any(isinstance(a, ast.Starred) for a in node.args):
+                continue
+            try:
+                q = model.qualified(mod, node.func)
+                tgt = model.resolve_qualified(q) if q else None
+            except Exception:
+                tgt = None
+            fn = None
+            if isinstance(tgt, tuple):
+                for x in tgt:
+                    if isinstance(x, ast.FunctionDef):
+                        fn = x
+            if fn is None:
+                continue
+            params = [a.arg for a in fn.args.posonlyargs + fn.args.args]
+            if params and params[0] in ("self", "cls"):
+                params = params[1:]
+            n_calls += 1
+            for i, a in enumerate(node.args):
+                if isinstance(a, ast.Name) and a.id in params and i < len(params) and params.index(a.id) != i:
+                    why = ARGPOS_OK.get((rel, fn.name, a.id))
+                    ctx.ob(
+                        "ARGPOS.named-call",
+                        node,
+                        f"`{unparse(node)[:60]}`: `{a.id}` is passed as {fn.name}'s `{a.id}`",
+                        why is not None,
+                        why or f"`{a.id}` is passed in the slot of `{params[i]}` while {fn.name} has a parameter `{a.id}` at position {params.index(a.id)}: arguments are swapped or shifted",
+                        nontrivial=why is None,
+                    )
+    ctx.count("resolved_call_sites", n_calls)
     # ---------------- TRUTH.numeric-param
     from .srcmodel import param_names
     from .dataflow import reaching_of
